@@ -73,6 +73,28 @@ MUTANTS = [
     {"id": "c08-reset-cache-skips-stocks", "property": "C08", "file": M,
      "old": "        for equation in self.memo:\n            self.memo[equation] = {}",
      "new": "        for equation in self.memo:\n            if equation not in self.stocks:\n                self.memo[equation] = {}"},
+    # ---- C11
+    {"id": "c11-route-by-position", "property": "C11", "file": SCH,
+     "old": "                receiver = model.agent(event.receiver_id)\n", "new": "                receiver = model.agents[event.receiver_id] if event.receiver_id < len(model.agents) else None\n"},
+    {"id": "c11-queue-lifo", "property": "C11", "file": SCH,
+     "old": "model.events.pop(0)", "new": "model.events.pop()"},
+    {"id": "c11-inbox-lifo", "property": "C11", "file": AG,
+     "old": "                event = self.events.pop(0)\n", "new": "                event = self.events.pop()\n"},
+    {"id": "c11-float-countdown", "property": "C11", "file": SCHB,
+     "old": "                event.delay = round(event.delay - dt, 10) # do not let float errors of the countdown add a step (1.0 - 5*0.2 > 0)\n",
+     "new": "                event.delay -= dt\n"},
+    {"id": "c11-deliver-same-step", "property": "C11", "file": SCHB,
+     "old": "            if event.delay > 0:", "new": "            if event.delay > dt:",
+     "note": "delayed events arrive one step early"},
+    {"id": "c11-delay-decremented-twice", "property": "C11", "file": SCHB,
+     "old": "                self.delayed_events += [event]\n", "new": "                event.delay = event.delay - dt if event.delay > 2 * dt else event.delay\n                self.delayed_events += [event]\n"},
+    {"id": "c11-delayed-events-dropped-at-round-end", "property": "C11", "file": SCH,
+     "old": "        model.events += self.delayed_events\n", "new": "        model.events += self.delayed_events if step == 0 else []\n",
+     "note": "delayed events survive only when requeued in the first step of a round (invisible for dt = 1)"},
+    {"id": "c11-event-delivered-twice-after-create", "property": "C11", "file": M,
+     "old": "        agent.initialize()\n        self.agents.append(agent)\n", "new": "        agent.initialize()\n        self.agents.append(agent)\n        self.events += [e for e in self.events if e.receiver_id == agent.id - 1][:1]\n"},
+    {"id": "c11-dead-receiver-falls-to-first-agent", "property": "C11", "file": SCH,
+     "old": "                if receiver is not None:\n", "new": "                if receiver is None and model.agents:\n                    receiver = model.agents[0]\n                if receiver is not None:\n"},
     # ---- C14
     {"id": "c14-count-per-state-by-position", "property": "C14", "file": M,
      "old": "            if self.agent(agent_id).state == state:", "new": "            if self.agents[agent_id].state == state:"},
